@@ -5,7 +5,8 @@ Require Import List Arith Permutation.
 From Dasp Require Import Base.Res Ring.Bounded Ring.BoundedSpec Ring.BoundedProofs
   Ring.Fixed Ring.FixedSpec Ring.FixedProofs Alloc.Caps
   Signal.Bus Signal.BusSpec Alloc.BusBacklog
-  Graph.Dfs Graph.Process Graph.ProcessSpec Alloc.ProcessorCaps.
+  Graph.Dfs Graph.Process Graph.ProcessSpec Graph.ProcessProofs Alloc.ProcessorCaps
+  Alloc.CapsDfs Alloc.CapsDfsProofs Alloc.CapsDfsExamples.
 Import ListNotations.
 
 (* user-supplied (possibly heap-backed) ring-buffer storage is never resized, by any history *)
@@ -127,3 +128,132 @@ Theorem c07_with_capacity_no_realloc : forall (W B : Type) (bufs : W -> B) (npro
   vcap (fst (vrun {| vlen := 0; vcap := n |} (inputs_calls bufs nproc ps g out))) = n.
 Proof. exact @with_capacity_no_realloc. Qed.
 Print Assumptions c07_with_capacity_no_realloc.
+
+(* ---- the capacity trace of the modelled `process` itself (Alloc/CapsDfs.v) ----
+   [iproc] = the C09 processor state plus the (len, cap) pairs of the heap vectors a real Processor
+   owns (DFS stack, inputs list, the block vector of each FixedBitSet) and a reallocation counter;
+   [iprocess] = the C09 model call [process] with every stack push/pop/clear, inputs push/clear and
+   bit-set grow accounted on them (push reallocates iff len = cap; nothing shrinks a capacity);
+   [caps] = the three capacities.  All statements: every multigraph (cycles, self-loops, parallel
+   edges, vacancies), every node type, every prior processor state, no size bound. *)
+
+(* the stack/inputs scripts of a call depend on the SHAPE of the graph (edges and vacancies) and
+   on the output node only: not on the processor's past, not on node states or buffers *)
+Theorem c07_processor_scripts_shape : forall (W B : Type) (bufs : W -> B) (nproc : W -> list B -> W)
+  (p1 p2 : processor) (g g' : graph W) (out : nat), wf g -> same_shape g g' -> live g out = true ->
+  process_ops bufs nproc p1 g out = process_ops bufs nproc p2 g' out.
+Proof. exact @process_ops_shape. Qed.
+Print Assumptions c07_processor_scripts_shape.
+
+(* the instrumented call returns exactly when the model call does, with the model's results *)
+Theorem c07_processor_trace_terminates : forall (W B : Type) (bufs : W -> B) (nproc : W -> list B -> W)
+  (ip : iproc) (g : graph W) (out : nat), wf g -> live g out = true ->
+  exists ip' g' log, iprocess bufs nproc ip g out = Ok (ip', g', log) /\
+                     process bufs nproc (ibase ip) g out = Ok (ibase ip', g', log).
+Proof. exact @iprocess_terminates. Qed.
+Print Assumptions c07_processor_trace_terminates.
+
+(* faithfulness and invariants: after a call the stack vector is as long as the model's stack
+   (empty), the vectors are in a state a Vec can be in, no capacity has shrunk, the graph has kept
+   its shape, the bit sets cover the node bound *)
+Theorem c07_processor_trace_faithful : forall (W B : Type) (bufs : W -> B) (nproc : W -> list B -> W)
+  (ip : iproc) (g : graph W) (out : nat) ip' g' log, wf g -> live g out = true -> iwf ip ->
+  iprocess bufs nproc ip g out = Ok (ip', g', log) ->
+  iwf ip' /\ same_shape g g' /\
+  vlen (svec ip') = length (stack (dfs (ibase ip'))) /\ vlen (svec ip') = 0 /\
+  cap (ibase ip') = Nat.max (cap (ibase ip)) (node_bound g) /\
+  c_stack (caps ip) <= c_stack (caps ip') /\ c_inputs (caps ip) <= c_inputs (caps ip') /\
+  c_bits (caps ip) <= c_bits (caps ip') /\ reallocs ip <= reallocs ip'.
+Proof. exact @iprocess_keeps. Qed.
+Print Assumptions c07_processor_trace_faithful.
+
+(* caps (process (process p g n) g n) = caps (process p g n): both calls return, and the second
+   changes no capacity and reallocates nothing *)
+Theorem c07_processor_steady_dfs : forall (W B : Type) (bufs : W -> B) (nproc : W -> list B -> W)
+  (ip : iproc) (g : graph W) (n : nat), wf g -> live g n = true -> iwf ip ->
+  exists ip1 g1 l1 ip2 g2 l2,
+    iprocess bufs nproc ip g n = Ok (ip1, g1, l1) /\ iprocess bufs nproc ip1 g1 n = Ok (ip2, g2, l2) /\
+    caps ip2 = caps ip1 /\ reallocs ip2 = reallocs ip1.
+Proof. exact @iprocess_twice. Qed.
+Print Assumptions c07_processor_steady_dfs.
+
+(* ... and the second call may be on ANY graph of the same shape (the owner may rewrite every node
+   and buffer between the calls) *)
+Theorem c07_processor_steady_dfs_shape : forall (W B : Type) (bufs : W -> B) (nproc : W -> list B -> W)
+  (ip : iproc) (g : graph W) (n : nat) ip1 g1 l1, wf g -> live g n = true -> iwf ip ->
+  iprocess bufs nproc ip g n = Ok (ip1, g1, l1) ->
+  forall (g1' : graph W) ip2 g2 l2, same_shape g g1' ->
+  iprocess bufs nproc ip1 g1' n = Ok (ip2, g2, l2) ->
+  caps ip2 = caps ip1 /\ reallocs ip2 = reallocs ip1.
+Proof. exact @iprocess_steady. Qed.
+Print Assumptions c07_processor_steady_dfs_shape.
+
+(* the stronger reading that IS true: whatever the processor did before, a call from ANY node of
+   ANY graph whose traversal needs no more stack entries / inputs / bit-set blocks than are
+   reserved changes no capacity and reallocates nothing *)
+Theorem c07_processor_reserved : forall (W B : Type) (bufs : W -> B) (nproc : W -> list B -> W)
+  (ip : iproc) (g : graph W) (n' : nat) ip' g' log, wf g -> live g n' = true -> iwf ip ->
+  high_water 0 (fst (process_ops bufs nproc new_processor g n')) <= vcap (svec ip) ->
+  high_water 0 (snd (process_ops bufs nproc new_processor g n')) <= vcap (ivec ip) ->
+  (node_bound g <= cap (ibase ip) \/ blocks_of (node_bound g) <= vcap (bvec ip)) ->
+  iprocess bufs nproc ip g n' = Ok (ip', g', log) ->
+  caps ip' = caps ip /\ reallocs ip' = reallocs ip.
+Proof. exact @iprocess_reserved. Qed.
+Print Assumptions c07_processor_reserved.
+
+(* in particular after a call from n: a call from any n' of the same graph (shape) whose
+   traversal needs no more stack and inputs than the one from n did *)
+Theorem c07_processor_steady_dominated : forall (W B : Type) (bufs : W -> B) (nproc : W -> list B -> W)
+  (ip : iproc) (g : graph W) (n : nat) ip1 g1 l1, wf g -> live g n = true -> iwf ip ->
+  iprocess bufs nproc ip g n = Ok (ip1, g1, l1) ->
+  forall (g1' : graph W) (n' : nat) ip2 g2 l2, same_shape g g1' -> live g n' = true ->
+  high_water 0 (fst (process_ops bufs nproc new_processor g n')) <= high_water 0 (fst (process_ops bufs nproc new_processor g n)) ->
+  high_water 0 (snd (process_ops bufs nproc new_processor g n')) <= high_water 0 (snd (process_ops bufs nproc new_processor g n)) ->
+  iprocess bufs nproc ip1 g1' n' = Ok (ip2, g2, l2) ->
+  caps ip2 = caps ip1 /\ reallocs ip2 = reallocs ip1.
+Proof. exact @iprocess_steady_dominated. Qed.
+Print Assumptions c07_processor_steady_dominated.
+
+(* the stack never holds more than 1 + |E| entries (tight: a chain) ... *)
+Theorem c07_stack_high_water_edges : forall (W B : Type) (bufs : W -> B) (nproc : W -> list B -> W)
+  (p : processor) (g : graph W) (out : nat), wf g -> live g out = true ->
+  high_water 0 (fst (process_ops bufs nproc p g out)) <= 1 + length (edges g).
+Proof. exact @stack_high_water_edges. Qed.
+Print Assumptions c07_stack_high_water_edges.
+
+(* ... so a processor holding 1 + |E| stack entries, max in-degree inputs and bit sets covering
+   the node bound never grows, from any output node *)
+Theorem c07_processor_reserved_bounds : forall (W B : Type) (bufs : W -> B) (nproc : W -> list B -> W)
+  (ip : iproc) (g : graph W) (out : nat) ip' g' log, wf g -> live g out = true -> iwf ip ->
+  1 + length (edges g) <= vcap (svec ip) -> max_in_degree g <= vcap (ivec ip) ->
+  (node_bound g <= cap (ibase ip) \/ blocks_of (node_bound g) <= vcap (bvec ip)) ->
+  iprocess bufs nproc ip g out = Ok (ip', g', log) ->
+  caps ip' = caps ip /\ reallocs ip' = reallocs ip.
+Proof. exact @iprocess_reserved_bounds. Qed.
+Print Assumptions c07_processor_reserved_bounds.
+
+(* REFUTED readings (witnesses computed on the model, confirmed on the crate through
+   Processor::verif_capacities(): corpus/C07, the `caps` correspondence of the check).
+   "once a processor has processed a graph of that size once" read as "from any node of that
+   graph": with_capacity(4), chain 0->1->2->3->4->5, a first call from node 0, then a call from
+   node 5 of the same graph reallocates the stack (4 -> 8) *)
+Theorem c07_processor_any_node_refuted :
+  exists (g : graph unit) (n n' c : nat) ip1 g1 l1 ip2 g2 l2,
+    wf g /\ live g n = true /\ live g n' = true /\
+    iprocess (fun _ => tt) (fun w _ => w) (iproc_with_capacity c) g n = Ok (ip1, g1, l1) /\
+    iprocess (fun _ => tt) (fun w _ => w) ip1 g1 n' = Ok (ip2, g2, l2) /\
+    c_stack (caps ip1) < c_stack (caps ip2) /\ reallocs ip1 < reallocs ip2.
+Proof. exact any_node_refuted. Qed.
+Print Assumptions c07_processor_any_node_refuted.
+
+(* the doc of Processor::with_capacity ("As long as this node count is not exceeded, the Processor
+   should never require dynamic allocation following construction"): a 5-node graph, with_capacity(5):
+   the first call stacks 8 entries (stack 5 -> 10) and allocates both bit sets: 3 allocations *)
+Theorem c07_with_capacity_node_count_refuted :
+  exists (g : graph unit) (out : nat) ip1 g1 l1,
+    wf g /\ live g out = true /\ length (node_identifiers g) = 5 /\
+    iprocess (fun _ => tt) (fun w _ => w) (iproc_with_capacity 5) g out = Ok (ip1, g1, l1) /\
+    high_water 0 (fst (process_ops (fun _ : unit => tt) (fun w _ => w) new_processor g out)) = 8 /\
+    c_stack (caps ip1) = 10 /\ reallocs ip1 = 3.
+Proof. exact with_capacity_node_count_refuted. Qed.
+Print Assumptions c07_with_capacity_node_count_refuted.
